@@ -43,10 +43,24 @@ func findExternal(fn *ssa.Function) externalFn {
 		switch fn.Pkg.Pkg.Path() {
 		case "reflect", "internal/reflectlite":
 			if fn.Synthetic == "" || fn.Blocks != nil {
-				if fn.Name() == "init" {
+				if fn.Name() == "init" || strings.HasPrefix(name, "(reflect.Kind).") || strings.HasPrefix(name, "(reflect.StructTag).") ||
+					strings.HasPrefix(name, "(*reflect.ValueError).") || strings.HasPrefix(name, "(reflect.ChanDir).") ||
+					strings.HasPrefix(name, "(internal/reflectlite.Kind).") || strings.HasPrefix(name, "reflect.init") {
 					return nil
 				}
 				return func(fr *frame, args []value) value {
+					if fr.i.pkgInit[fn.Pkg] == 1 {
+						// while initialising the reflect package itself its
+						// (unused) type descriptors are left zero
+						res := fn.Signature.Results()
+						switch res.Len() {
+						case 0:
+							return nil
+						case 1:
+							return zero(res.At(0).Type())
+						}
+						return zero(res)
+					}
 					panic(unsupported("reflect function not modelled: " + name))
 				}
 			}
